@@ -167,6 +167,20 @@ extern "C" void harness()
 	for(int t = 0; t < TT; t++) { g->idx[t] = t; vf_spawn(worker, &g->idx[t]); }
 	int dead = vf_join_all();
 	vf_assert(dead == 0, 300);                                  // every call returns: no deadlock
+	// ---- the content right after the join: every callback whose addition completed is reached by an invocation made NOW
+	// (a generation counter that moved backwards would hide one until the next addition)
+	uint32_t midv[MAXN]; int midn = 0;
+	{
+		int ri = g->nrec; g->rec[ri].nseen = 0; g->curTraversal[0] = ri;
+#if DISP
+		g->t->dispatch(EV, 0u);
+#else
+		(*g->t)(0u);
+#endif
+		g->curTraversal[0] = -1;
+		midn = g->rec[ri].nseen;
+		for(int i = 0; i < midn && i < MAXN; i++) midv[i] = g->rec[ri].seen[i];
+	}
 	// ---- one more append after the join (a stale tail or head would lose a callback now), then the final content
 	do_append(99);
 	uint32_t finalv[MAXN]; int finaln = 0;
@@ -181,6 +195,9 @@ extern "C" void harness()
 		finaln = g->rec[ri].nseen; vf_assert(finaln <= MAXN, 301);
 		for(int i = 0; i < finaln && i < MAXN; i++) { finalv[i] = g->rec[ri].seen[i]; vf_obs(1, finalv[i]); }
 		for(int i = 0; i < finaln; i++) for(int j = i + 1; j < finaln; j++) vf_assert(finalv[i] != finalv[j], 302);   // nobody duplicated
+		// the invocation before the extra append showed the same callbacks minus the new one
+		vf_assert(midn == finaln - 1, 310);
+		for(int i = 0; i < midn && i < MAXN; i++) vf_assert(midv[i] == finalv[i], 311);
 	}
 	// ---- (1) linearizability of the adding / removing / querying calls and of the final order
 	{
